@@ -3,6 +3,8 @@
 //! `harness gen <what>`    writes seeded instances (cases) for TLC to evaluate
 //! `harness replay <what>` replays behaviours emitted by TLC into the real code and compares
 //! `harness record <what>` drives the real code and records traces for TLC to validate
+mod build;
+mod edit;
 mod eval;
 mod named;
 mod rng;
@@ -14,7 +16,11 @@ use util::Args;
 
 fn main() {
     // panics of the code under test are data: keep the default hook quiet
-    std::panic::set_hook(Box::new(|_| {}));
+    std::panic::set_hook(Box::new(|info| {
+        if util::QUIET.load(std::sync::atomic::Ordering::SeqCst) == 0 {
+            eprintln!("harness panic: {info}");
+        }
+    }));
     let raw: Vec<String> = std::env::args().skip(1).collect();
     let args = Args::parse(&raw);
     let cmd: Vec<&str> = args.pos.iter().map(|s| s.as_str()).collect();
@@ -25,6 +31,8 @@ fn main() {
         ["replay", "dist"] => strategy::replay_dist(&args),
         ["replay", "import"] => strategy::replay_import(&args),
         ["record", "named"] => named::record(&args),
+        ["replay", "build"] => build::replay(&args),
+        ["gen", "edit"] => edit::gen(&args),
         other => {
             eprintln!("unknown command {other:?}");
             std::process::exit(2);
